@@ -1,5 +1,5 @@
 #!/usr/bin/env python3
-"""Regenerate the round-4 .. round-7 tables of DESIGN.md section 11 from seeded/*/meta.json and
+"""Regenerate the round-4 .. round-8 tables of DESIGN.md section 11 from seeded/*/meta.json and
 seeded/RESULTS.json (between the markers)."""
 import json, os, re
 res=json.load(open('/verif/seeded/RESULTS.json'))
@@ -59,6 +59,14 @@ constraints obtained through the URDF path, `filter()` never consulted). One sta
 
 {table('r7-')}
 
+Eighth round, focus on SEMANTICS-CHANGING OPTIMISATIONS (cheaper pre-tests, batching, fast paths,
+reuse of buffers and verdicts) and MISUSE OF DEPENDENCIES (parry3d frames and queries, nalgebra
+interpolation, kd-tree distances, yaml-rust2 keys, rayon ordering): 21 more,
+`/verif/seeded/r8-*`. When first run 19 were caught and 2 missed (no pivots in place and no
+fine rotation steps in C12; no offset arrays mixing `deg()` with plain radians in C19).
+
+{table('r8-')}
+
 Probes of my own (no demonstration programs, not counted): `own-hang-1` (a spin loop between
 scheduling points, reported as `t:no-termination` by the watchdog), `own-r6-c11-m3-static` (my
 port of `r6-c11-m3` to a static, caught by C11 after its second phase was made to repeat the
@@ -67,7 +75,7 @@ budget in `dual_rrt_connect`, caught by C12 clause g through the simulated clock
 (`Tool::forward_with_joint_poses` moving link 6 to the tool centre point, caught by the placement
 oracle of C10).
 
-Totals over the seven rounds: {det} of {tot} seeded changes are caught by the QUICK tier of their
+Totals over the eight rounds: {det} of {tot} seeded changes are caught by the QUICK tier of their
 property's check{', ' + ', '.join(thor) + ' only by the thorough tier' if thor else ''}.
 <!-- SEEDED-TABLES-END -->"""
 s=open('/verif/DESIGN.md').read()
